@@ -73,6 +73,25 @@ def handle (s : State) (line : String) : State × String :=
         let s' := match finish s1 stop with | some x => settle x | none => s1
         (s', obs s')
     | _, _ => (s, "bad-op")
+  | ["pmain", b, k, cmd, arg] =>
+    -- the protocol returns (stop=b) and the receiver executes `cmd` while the main thread is pre-empted somewhere inside its
+    -- next `get()`: every step of the model is atomic, so the outcome is that of the two in sequence
+    match parseBool b with
+    | some stop =>
+      match finish s stop with
+      | none => (s, "disabled")
+      | some s1 =>
+        let s2 := settle s1
+        match cmd, parseNatList arg with
+        | "put", some l => let s' := settle (putMany s2 l); (s', obs s')
+        | "steal", some l =>
+          -- pre-empted before it takes the queue lock (its first synchronisation point): the steal comes first;
+          -- anywhere later its `get` has already happened (the receiver cannot enter while the main thread holds the lock)
+          let s' := if k = "1" then settle (steal s1 l) else settle (steal s2 l)
+          (s', obs s')
+        | "shutdown", _ => let s' := settle (putShutdown s2); (s', obs s')
+        | _, _ => (s, "bad-op")
+    | none => (s, "bad-op")
   | ["main", b] =>
     match parseBool b with
     | none => (s, "bad-op")
